@@ -116,13 +116,14 @@ macro_rules! impl_datatype_hash {
                         2u8.hash(state);
                         (v.0 as f64).to_bits().hash(state);
                     }
+                    // 0.0 == -0.0, so both hash as +0.0
                     Self::Float(v) => {
                         2u8.hash(state);
-                        (v.0 as f64).to_bits().hash(state);
+                        (v.0 as f64 + 0.0).to_bits().hash(state);
                     }
                     Self::Double(v) => {
                         2u8.hash(state);
-                        v.0.to_bits().hash(state);
+                        (v.0 + 0.0).to_bits().hash(state);
                     }
                     Self::Blob(b) => {
                         3u8.hash(state);
